@@ -51,6 +51,13 @@ class Device:
         self.dropped = bytearray()      # bytes the OS threw away during the current op (oversize datagram, flush)
         self.lost_dgrams: list = []     # (datagram length, receive size asked for) of datagrams lost during the current op
         self.objects = 0                # sockets / serial ports created
+        self.open_plan: list = []       # outcomes of the coming open() attempts: 'ok' | 'to' | 'early' | 'late'
+        self.cur_open = "ok"            # outcome of the open() attempt under way (UDP: chosen at gethostbyname)
+        self.written: list = []         # payloads handed to the device during the current op, one entry per call
+
+    def next_open(self) -> str:
+        self.cur_open = self.open_plan.pop(0) if self.open_plan else "ok"
+        return self.cur_open
 
     # virtual time ---------------------------------------------------------
     def monotonic(self) -> float:
@@ -124,9 +131,19 @@ class FakeSocket:
         pass
 
     def connect(self, addr):
+        import socket as real_socket
+        self.dev.touch("cn")
+        r = self.dev.next_open()
+        if r == "to":
+            raise real_socket.timeout("timed out")
+        if r != "ok":
+            raise ConnectionRefusedError(111, "Connection refused")
         self.live = True
 
     def bind(self, addr):
+        self.dev.touch("bd")
+        if self.dev.cur_open != "ok":          # chosen when gethostbyname ran
+            raise OSError(98, "Address already in use")
         self.live = True
 
     def _recv(self, n: int, tag: str) -> bytes:
@@ -152,10 +169,17 @@ class FakeSocket:
         return self._recv(n, "rv")
 
     def sendall(self, data):
-        pass
+        self.dev.touch(f"sa:{len(data)}")
+        if self.closed:
+            raise OSError(9, "Bad file descriptor")
+        self.dev.written.append(bytes(data))
 
     def sendto(self, data, addr):
-        pass
+        self.dev.touch(f"sd:{len(data)}")
+        if self.closed:
+            raise OSError(9, "Bad file descriptor")
+        self.dev.written.append(bytes(data))
+        return len(data)
 
     def close(self):
         self.dev.touch("cl")
@@ -165,6 +189,9 @@ class FakeSocket:
 class FakeSerial:
     def __init__(self, dev: Device, *a, **kw):
         self.dev = dev
+        if dev.next_open() != "ok":
+            import serial as real_serial
+            raise real_serial.SerialException("could not open port")
         dev.objects += 1
         dev.touch("mk")
         self.timeout = kw.get("timeout")
@@ -192,11 +219,21 @@ class FakeSerial:
             self.dev.dropped += s.pop(0)[2]
 
     def write(self, data):
+        self.dev.touch(f"wr:{len(data)}")
+        self.dev.written.append(bytes(data))
         return len(data)
 
     def close(self):
         self.dev.touch("cl")
         self.closed = True
+
+
+def _fake_gethostbyname(dev: Device, host: str) -> str:
+    import socket as real_socket
+    dev.touch("gh")
+    if dev.next_open() == "early":
+        raise real_socket.gaierror(-2, "Name or service not known")
+    return "127.0.0.1"
 
 
 class _Shim:
@@ -222,7 +259,7 @@ class _Patched:
         self.saved = (T.socket, T.serial, T.time)
         cur = self.cur = [None]
         T.socket = _Shim(real_socket, socket=lambda *a, **kw: FakeSocket(cur[0], *a, **kw),
-                         gethostbyname=lambda h: "127.0.0.1")
+                         gethostbyname=lambda h: _fake_gethostbyname(cur[0], h))
         T.serial = _Shim(real_serial, Serial=lambda *a, **kw: FakeSerial(cur[0], *a, **kw))
         T.time = _Shim(real_time, monotonic=lambda: cur[0].monotonic(), sleep=lambda dt: cur[0].sleep(dt))
         return self
@@ -283,11 +320,20 @@ def _run_impl(P: _Patched, sc: dict):
             outs.append("ok")
             trace.append({"op": "feed"})
             continue
+        if op == "planopen":
+            dev.open_plan.append(st[1])
+            lines.append(f"planopen {st[1]}")
+            outs.append("ok")
+            trace.append({"op": "planopen", "plan": st[1]})
+            continue
         dev.io = []
+        dev.written = []
         dev.given = bytearray()
         dev.dropped = bytearray()
         dev.lost_dgrams = []
         calls0, objs0 = dev.calls, dev.objects
+        clk0 = dev.ticks
+        slice0 = max([e for e, _, _ in dev.script], default=0)     # longest wait of any single device read still to come
         ret, exc = None, None
         try:
             if op == "open":
@@ -299,6 +345,9 @@ def _run_impl(P: _Patched, sc: dict):
             elif op == "discard":
                 lines.append("discard")
                 tr.discard_read()
+            elif op == "write":
+                lines.append(f"write {st[1] or '-'}")
+                tr.write(bytes.fromhex(st[1]))
             elif op == "read":
                 lines.append(f"read {st[1]} {_tt(st[2])}")
                 ret = tr.read(st[1], None if st[2] is None else st[2] * TICK)
@@ -313,7 +362,8 @@ def _run_impl(P: _Patched, sc: dict):
         except (ScriptExhausted, Budget) as e:
             exc = type(e).__name__
         except Exception as e:  # noqa
-            exc = type(e).__name__
+            # OS-level errors the code passes through unchanged (ConnectionRefusedError, gaierror, SerialException …)
+            exc = "OSError" if isinstance(e, OSError) else type(e).__name__
         if exc is not None:
             o = f"exc:{exc}"
         elif ret is None:
@@ -323,11 +373,14 @@ def _run_impl(P: _Patched, sc: dict):
         else:
             o = f"ret-type:{type(ret).__name__}"
         buf = bytes(getattr(tr, "_read_buffer", b""))
-        outs.append(f"{o} io={','.join(dev.io) or '-'} clk={dev.ticks} left={len(dev.script)} buf={_hx(buf)}")
+        outs.append(f"{o} io={','.join(dev.io) or '-'} clk={dev.ticks} left={len(dev.script)} buf={_hx(buf)} "
+                    f"open={'true' if getattr(tr, '_is_open', None) is True else 'false'}")
         trace.append({"op": op, "args": st[1:], "ret": None if ret is None else bytes(ret), "exc": exc,
                       "touched": dev.calls - calls0, "made": dev.objects - objs0,
                       "given": bytes(dev.given), "dropped": bytes(dev.dropped), "buf": buf,
-                      "lost_dgrams": list(dev.lost_dgrams), "fit_limit": min(mn, mx)})
+                      "lost_dgrams": list(dev.lost_dgrams), "fit_limit": min(mn, mx),
+                      "written": list(dev.written), "flag": getattr(tr, "_is_open", None),
+                      "clk0": clk0, "clk1": dev.ticks, "slice": slice0})
         if exc == "Budget":
             break
     return lines, outs, trace
@@ -349,9 +402,13 @@ def _oracle(kind: str, trace) -> Optional[tuple]:
     pending = bytearray()
     is_open = False
     soft = None      # a broken per-call size contract does not invalidate the accounting: keep checking
+    plan: list = []  # what the OS will answer to the coming open() attempts
     for i, ev in enumerate(trace):
         op = ev["op"]
         if op == "feed":
+            continue
+        if op == "planopen":
+            plan.append(ev["plan"])
             continue
         exc, ret = ev["exc"], ev["ret"]
         if exc == "Budget":
@@ -361,9 +418,18 @@ def _oracle(kind: str, trace) -> Optional[tuple]:
                 if exc != "QMI_InvalidOperationException" or ev["made"]:
                     return ("open-not-refused-when-open", i, f"exc={exc} made={ev['made']}")
             else:
-                if exc is not None:
-                    return ("open-refused-when-closed", i, exc)
-                is_open = True
+                planned = plan.pop(0) if plan else "ok"
+                if planned == "ok":
+                    if exc is not None:
+                        return ("open-refused-when-closed", i, exc)
+                    is_open = True
+                else:
+                    # the OS refuses (connect time-out / refused / name lookup / bind / port busy): the call must
+                    # raise, the transport stays closed and can be opened again
+                    if exc is None:
+                        return ("failed-open-reported-success", i, planned)
+                    if exc not in ("QMI_TimeoutException", "OSError"):
+                        return ("failed-open-wrong-exception", i, f"{planned}: {exc}")
                 if ev["buf"] == b"":
                     pending.clear()          # dropping the leftover of the previous session is a discard
         elif op == "close":
@@ -377,6 +443,8 @@ def _oracle(kind: str, trace) -> Optional[tuple]:
             if not is_open:
                 if ev["touched"]:
                     return ("closed-touches-device", i, f"{op}: {ev['touched']} device calls")
+                if exc is None and op == "write":
+                    return ("closed-write-not-refused", i, op)
                 if exc is None and ret is None and op != "discard":
                     return ("closed-wrong-result", i, op)
                 if exc is not None and exc != "QMI_InvalidOperationException":
@@ -394,6 +462,8 @@ def _oracle(kind: str, trace) -> Optional[tuple]:
                         return ("datagram-that-fits-packet-size-lost-or-truncated", i,
                                 f"{op}: a {dlen}-byte datagram (packet size {ev['fit_limit']}) was received with size {asked} "
                                 f"while {len(pending)} bytes were buffered: the OS drops it or cuts it to {asked} bytes")
+            if op == "write" and is_open and exc is not None:
+                return ("write-failed-on-open-transport", i, exc)
             if exc is not None:
                 ok = exc in _ALLOWED_EXC or (exc == "QMI_RuntimeException" and kind == "udp" and ev["dropped"]
                                              and all(d > ev.get("fit_limit", 0) for d, _ in ev.get("lost_dgrams", ()))) \
@@ -404,6 +474,12 @@ def _oracle(kind: str, trace) -> Optional[tuple]:
                     pending.clear()      # the discard was under way when the finite script ended (harness artefact)
             elif op == "discard":
                 pending.clear()
+            elif op == "write":
+                if is_open:
+                    data = bytes.fromhex(ev["args"][0])
+                    if ev.get("written") != [data]:
+                        return ("write-not-handed-to-device-whole", i,
+                                f"wrote {_hx(data)}, device got {[_hx(w) for w in ev.get('written', [])]}")
             else:
                 if not isinstance(ret, bytes):
                     return ("result-not-bytes", i, op)
@@ -421,6 +497,17 @@ def _oracle(kind: str, trace) -> Optional[tuple]:
                         return ("until-not-terminated", i, f"{_hx(ret)} does not end with {_hx(term)}")
                     if ret.find(term) != len(ret) - len(term):
                         return ("until-not-shortest", i, f"{_hx(ret)} has an earlier terminator {_hx(term)}")
+        # serial deadline contract: back within time-out + one device slice; a non-blocking read does not wait
+        if kind == "serial" and op in ("read", "until", "rut") and ev["args"][-1] is not None:
+            t = ev["args"][-1]
+            took = ev["clk1"] - ev["clk0"]
+            if took > max(t, 0) + ev["slice"]:
+                return ("serial-call-blocks-longer-than-timeout-plus-slice", i,
+                        f"{op} timeout={t} ticks, slice={ev['slice']}: took {took} ticks")
+            if op == "read" and t <= 0 and took != 0:
+                return ("serial-nonblocking-read-waited", i, f"read timeout={t}: took {took} ticks")
+        if ev.get("flag") is not is_open:
+            return ("open-flag-differs-from-state-machine", i, f"{op}: _is_open={ev.get('flag')!r}, expected {is_open}")
         if ev["buf"] != bytes(pending):
             how = "after-timeout" if exc == "QMI_TimeoutException" else ("after-exception" if exc else "after-return")
             return (f"buffer-differs-from-undelivered-{how}", i,
@@ -557,6 +644,26 @@ def _gen_t(rng):
     return rng.choice([-1, -8])
 
 
+def _gen_open(rng, steps: list, p_fail: float) -> None:
+    """an open(), sometimes preceded by attempts the OS refuses (time-out / before the device object exists / after it),
+    with calls on the still-closed transport in between, then the successful retry"""
+    if rng.random() < p_fail:
+        fails = [rng.choice(["to", "early", "late"]) for _ in range(rng.choice([1, 1, 2, 3]))]
+        for f in fails:
+            steps.append(["planopen", f])
+        if rng.random() < 0.2:
+            steps.append(["planopen", "ok"])
+        for _ in fails:
+            steps.append(["open"])
+            if rng.random() < 0.5:
+                steps.append(rng.choice([["close"], ["read", 1, 0], ["write", "00"], ["discard"], ["rut", 1, 1],
+                                         ["until", "0a", 0]]))
+        if rng.random() < 0.9:
+            steps.append(["open"])
+    else:
+        steps.append(["open"])
+
+
 def _gen_scenario(rng, kind: str, max_ops: int) -> dict:
     big = rng.random() < 0.04
     evs, data = _gen_script(rng, kind, big)
@@ -570,7 +677,7 @@ def _gen_scenario(rng, kind: str, max_ops: int) -> dict:
     if rng.random() < 0.03:
         steps.append(["close"])
     steps.append(["feed", parts[0]])
-    steps.append(["open"])
+    _gen_open(rng, steps, 0.12)
     nops = rng.randint(1, max_ops)
     later = parts[1:]
     terms = [rng.choice(TERMS) for _ in range(2)]
@@ -579,6 +686,8 @@ def _gen_scenario(rng, kind: str, max_ops: int) -> dict:
     for k in range(nops):
         if later and rng.random() < 0.35:
             steps.append(["feed", later.pop(0)])
+        if rng.random() < 0.07:
+            steps.append(["write", _gen_stream(rng, rng.choice([0, 1, 2, 5, 17])).hex()])
         r = rng.random()
         if r < 0.30:
             n = rng.choice([0, 1, 1, 2, 3, 4, 5, 8, 13]) if not big else rng.choice([1, 100, 511, 512, 513, 700])
@@ -598,9 +707,9 @@ def _gen_scenario(rng, kind: str, max_ops: int) -> dict:
             steps.append(["close"])
             if rng.random() < 0.7:
                 steps.append(rng.choice([["until", rng.choice(TERMS).hex(), _gen_t(rng)], ["read", 1, 0], ["discard"],
-                                         ["rut", 2, 1], ["close"]]))
+                                         ["rut", 2, 1], ["close"], ["write", "6162"]]))
             if rng.random() < 0.8:
-                steps.append(["open"])
+                _gen_open(rng, steps, 0.3)
         else:
             steps.append(["open"])
     for p in later:
@@ -651,6 +760,51 @@ def _gen_udp_boundary(rng) -> dict:
     return {"kind": "udp", "steps": steps}
 
 
+def _fixed_corpus():
+    """Deterministic scenarios run first on every seed: boundary values of every size / count / time-out the code
+    handles, terminators that are prefixes / suffixes / repetitions of each other, the same call twice, calls in
+    unusual order, reuse across close/open, every kind of open() failure followed by a retry."""
+    def pat(n, seed=0):
+        return bytes((i * 7 + seed) % 251 for i in range(n))
+    tail = [[2, "t", ""]] * 4
+    out = []
+    for kind in KINDS:
+        # 1. related terminators on one stream, whole and byte-by-byte, each asked for twice
+        stream = b"aabababb\r\n\nabab\n\n"
+        for term in (b"ab", b"aab", b"aba", b"abab", b"ba", b"b", b"\n", b"\r\n", b"\n\n", b"", b"abababababababab", stream):
+            for chunks in ([stream], [stream[i:i + 1] for i in range(len(stream))], [stream[:7], stream[7:12], stream[12:]]):
+                evs = [[i % 2, "d", c.hex()] for i, c in enumerate(chunks)] + tail
+                for t in (None, 0, 3):
+                    out.append({"kind": kind, "steps": [["feed", evs], ["open"], ["until", term.hex(), t],
+                                                          ["until", term.hex(), t], ["rut", 64, 1], ["rut", 64, 1]]})
+        # 2. byte counts around every limit of the code, time-outs None / 0 / 1 / -1
+        limits = {"tcp": [0, 1, 2, 511, 512, 513, 1024], "udp": [0, 1, 2, 4095, 4096, 4097], "serial": [0, 1, 2, 63, 64, 65]}[kind]
+        sizes = {"tcp": [1, 511, 512, 513, 1100], "udp": [1, 4095, 4096], "serial": [1, 63, 64, 65]}[kind]
+        for size in sizes:
+            evs = [[1, "d", pat(size).hex()], [0, "d", pat(size, 3).hex()]] + tail
+            for n in limits:
+                for t in (None, 0, 1, -1):
+                    out.append({"kind": kind, "steps": [["feed", evs], ["open"], ["read", n, t], ["read", n, t],
+                                                          ["rut", n, t], ["rut", n, t], ["rut", 3 * size + 9, 0]]})
+        # 3. the same call twice, calls in unusual order, reuse across close / open
+        evs = [[0, "d", b"one\ntwo\nthree\n".hex()]] + tail
+        for first in (["close"], ["read", 1, 0], ["write", "6869"], ["discard"], ["until", "0a", 0], ["rut", 1, 0], ["open"]):
+            out.append({"kind": kind, "steps": [["feed", evs], first, first, ["open"], ["open"], ["write", "6869"],
+                                                  ["write", "6869"], ["write", ""], ["until", "0a", 1], ["discard"], ["discard"],
+                                                  ["close"], ["close"], first, ["until", "0a", 1], ["open"],
+                                                  ["feed", [[0, "d", b"four\n".hex()], [1, "t", ""]]], ["until", "0a", 1],
+                                                  ["close"], ["open"], ["close"]]})
+        # 4. open() failures of every kind, calls on the still-closed transport, then the retry
+        for fails in (["to"], ["early"], ["late"], ["to", "late"], ["early", "early", "to"], ["late", "ok"]):
+            steps = [["feed", evs]] + [["planopen", f] for f in fails]
+            for _ in fails:
+                steps += [["open"], ["close"], ["read", 1, 0], ["write", "00"], ["discard"], ["until", "0a", 0]]
+            steps += [["open"], ["until", "0a", 1], ["write", "6f6b"], ["close"], ["planopen", "to"], ["open"], ["open"],
+                      ["until", "0a", 1]]
+            out.append({"kind": kind, "steps": steps})
+    return out
+
+
 def _sweep_scenarios(kinds=KINDS):
     """Systematic: one stream, every single cut point, with and without a time-out between the two halves,
     every terminator of a small set, a few op templates."""
@@ -691,11 +845,15 @@ class C13(Prop):
         "the OS socket / pyserial port: replaced by a scripted stand-in (stream recv returns at most the requested "
         "bytes and keeps the rest; a datagram is delivered whole or lost with OSError; recv returns b'' at EOF; "
         "settimeout(negative) raises ValueError; Serial.read(0) returns at once; in_waiting = size of the head chunk "
-        "when it has no delay; reset_input_buffer drops the chunks that have no delay)",
-        "time.monotonic: replaced by a virtual clock advanced only by the scripted device (1 tick = 1/8 s, exact in floats)",
+        "when it has no delay; reset_input_buffer drops the chunks that have no delay; connect / gethostbyname / bind / "
+        "serial.Serial() succeed or fail as an oracle plan says; sendall / sendto / Serial.write accept the whole payload)",
+        "time.monotonic: replaced by a virtual clock advanced only by the scripted device (1 tick = 1/8 s, exact in floats); "
+        "the serial deadline theorem assumes every Serial.read returns within one device slice (pyserial's fixed timeout)",
         "bytearray.find / endswith / slicing (model: findSub, endsWith, take/drop; differentially checked here)",
-        "open(): socket creation / connect / bind always succeed in the stand-in (connect failure is not modelled)",
-        "write() is not modelled (not part of the property)",
+        "a write() that fails half-way in the OS (sendall raising) is not modelled; socket deadlines relative to the OS "
+        "honouring settimeout are tied by the clock / settimeout-value diff only (no theorem)",
+        "QMI_Vxi11Transport / USBTMC / GPIB transports are not named by the property and not modelled: only the shared "
+        "base-class open/close/_check_is_open logic (open_close_state_machine, isOpen_run) transfers to them",
     ]
 
     # -- differential run ---------------------------------------------------
@@ -708,7 +866,7 @@ class C13(Prop):
             all_lines += lines
             all_outs += outs
             kind = sc["kind"]
-            ops = [e for e in trace if e["op"] != "feed"]
+            ops = [e for e in trace if e["op"] not in ("feed", "planopen")]
             rets = sum(1 for e in ops if e["ret"])
             res.note_case((kind, repr(sc["steps"])), nontrivial=(rets >= 1 and len(ops) >= 3))
             res.count(f"{label}_scenarios_{kind}")
@@ -757,6 +915,8 @@ class C13(Prop):
                           "(single bytes / whole / random cuts), with delays, time-out results, empty reads, EOF and (UDP) "
                           "oversize datagrams sprinkled in, fed up-front or in instalments between ops; ops = random "
                           "read/read_until/read_until_timeout/discard_read/open/close with time-outs None/0/positive/negative; "
+                          "first a fixed corpus (related terminators x chunkings, byte counts around 512 / 4096, time-outs None/0/1/-1, every call "
+                          "twice, unusual order, reuse across close/open, every open() failure + retry); "
                           "plus UDP packet-size boundary scenarios (non-empty buffer + datagram of 4096-nbuf..4096 bytes; reads of 4000+ bytes "
                           "over ~1400-byte datagrams; every datagram fits, so none may be lost); "
                           "plus a systematic sweep (every cut point x gap kind x terminator x 6 op templates x 3 kinds). "
@@ -764,7 +924,8 @@ class C13(Prop):
         with _Patched() as P:
             mn, mx = _consts(P.T, "tcp")
             res.extra["packet_sizes"] = {"tcp": [mn, mx], "udp": list(_consts(P.T, "udp"))}
-            n = ctx.scale(45000, 600000)
+            self._differential(ctx, P, _fixed_corpus(), res, "corpus")
+            n = ctx.scale(30000, 600000)
             scen = [_gen_scenario(ctx.rng, KINDS[i % 3], ctx.scale(10, 16)) for i in range(n)]
             self._differential(ctx, P, scen, res, "random")
             self._differential(ctx, P, [_gen_udp_boundary(ctx.rng) for _ in range(ctx.scale(400, 6000))], res, "udp_boundary")
@@ -782,7 +943,7 @@ class C13(Prop):
         res = Result()
         with _Patched() as P:
             cands = [b.case["scenario"] for b in broken if b.case and "scenario" in b.case]
-            for sc in itertools.chain(cands, (_gen_udp_boundary(ctx.rng) for _ in range(300)), _sweep_scenarios(),
+            for sc in itertools.chain(cands, _fixed_corpus(), (_gen_udp_boundary(ctx.rng) for _ in range(300)), _sweep_scenarios(),
                                       (_gen_scenario(ctx.rng, KINDS[i % 3], 12) for i in range(ctx.scale(6000, 60000)))):
                 clause, trace = _check(P, sc)
                 res.note_case((sc["kind"], repr(sc["steps"])))
